@@ -15,6 +15,8 @@ structure MNode where
   handles : List Nat := []
   /-- how many of `s.delivered` have been turned into handles -/
   seenDelivered : Nat := 0
+  /-- short-write mode of the harness transport: report the total of the new writes -/
+  coalesce : Bool := false
   deriving Inhabited
 
 def bytesLt : Bytes → Bytes → Bool
@@ -46,7 +48,8 @@ def b01 (b : Bool) : String := if b then "1" else "0"
 
 def MNode.delta (n : MNode) : MNode × String :=
   let new := n.s.wire.drop n.seenWrites
-  let lens := new.map (fun w => toString w.length)
+  let total := (flatten new).length
+  let lens := if n.coalesce then (if total > 0 then [toString total] else []) else new.map (fun w => toString w.length)
   let (fs, rest) := decodeAll (n.decBuf ++ flatten new)
   let newDelivered := n.s.delivered.drop n.seenDelivered
   let n' := { n with seenWrites := n.s.wire.length, decBuf := rest,
@@ -173,6 +176,12 @@ def nodeOp (n : MNode) (toks : List String) : Option (MNode × String) :=
           | .block _ => "block"
         fin (n.s.modObj i fun o => { o with rd := rd' }) head
     | _, _ => none
+  | ["shortw", k] =>
+    match k.toNat? with
+    | some k =>
+      let (n', d) := ({ n with coalesce := k > 0 } : MNode).delta
+      some (n', "ok" ++ d)
+    | none => none
   | ["close"] => fin n.s.close "ok"
   | ["state"] =>
     let s := n.s
